@@ -23,6 +23,9 @@ INPUTS = {   # name: (text, expected return code for type 's')
     'uses_global': (b'diag_log str [isNil "gv_a", isNil "_loc"]; _loc = 1;', 0),
     'spawn_pending': (b'[] spawn { sleep 0.001; gv_b = 7 }; diag_log 3;', 0),
     'config_read': (b'diag_log str (getNumber (configFile >> "CfgA" >> "v"));', 0),
+    # a script spawned by a call that then fails is discarded with the failed run: it must never execute in a later call
+    'spawn_then_error': (b'[] spawn { gv_leak = 1; diag_log "LEAKED-SCRIPT"; }; diag_log 1; [] select 5;', -6),
+    'probe_leak': (b'diag_log str [isNil "gv_leak"];', 0),
 }
 CONFIG = b'class CfgA { v = 5; };'
 # assembly texts for type 'a': (text, documented return code)
@@ -61,6 +64,10 @@ def hist_case(m, length):
                             if u != USER or c != calld: rt.record_violation('assert', tag + 'diagnostic %r of sqfvm_call(%s) delivered with user_data %#x / call_data %#x instead of %#x / %#x' % (msg[:60], nm, u, c, USER, calld)); break
                         if exp in (-2, -3, -6) and not [l for l in logs if l[2] in (0, 1)]: rt.record_violation('assert', tag + 'sqfvm_call(%s) failed with %d but no error diagnostic reached the callback' % (nm, r))
                         if nm == 'ok' and r == 0: have_global = True
+                        if nm != 'spawn_then_error' and [1 for u, c, sev, msg in logs if 'LEAKED-SCRIPT' in msg]: rt.record_violation('assert', tag + 'sqfvm_call(%s) executed a script that an earlier, failed call had spawned (pending scripts must not carry over)' % nm)
+                        if nm == 'probe_leak' and r == 0:
+                            out = [msg for u, c, sev, msg in logs if 'DIAG_LOG' in msg]
+                            if not out or '[true]' not in out[0]: rt.record_violation('assert', tag + 'a script spawned by an earlier failed call has run: isNil "gv_leak" gives %r' % (out[:1],))
                         if nm == 'uses_global' and r == 0:
                             out = [msg for u, c, sev, msg in logs if 'DIAG_LOG' in msg]
                             want = '[%s,true]' % ('false' if have_global else 'true')
